@@ -6,7 +6,10 @@ pub mod c02;
 pub mod c03;
 pub mod c08;
 pub mod c09;
+pub mod c10;
+pub mod c10core;
 pub mod c12;
+pub mod c13;
 pub mod gwgen;
 
 macro_rules! dispatch {
@@ -26,7 +29,9 @@ pub fn run(id: &str, tier: Tier, seed: u64) -> i32 {
         "C03" => c03::C03,
         "C08" => c08::C08,
         "C09" => c09::C09,
+        "C10" => c10::C10,
         "C12" => c12::C12,
+        "C13" => c13::C13,
     )
 }
 
@@ -38,6 +43,8 @@ pub fn replay(id: &str, path: &Path) -> i32 {
         "C03" => c03::C03,
         "C08" => c08::C08,
         "C09" => c09::C09,
+        "C10" => c10::C10,
         "C12" => c12::C12,
+        "C13" => c13::C13,
     )
 }
